@@ -391,6 +391,35 @@ fn judge_forms<A: Subject + AllPairs>(ctx: &mut Ctx, case: &Case, wl: &str) {
     if outs.iter().all(|o| o.1.is_none()) {
         ctx.bucket("forms:all-panicked");
     }
+    // "identical result": the vectors returned by the different forms of the same operation must also be
+    // indistinguishable from one another through the pure observers (a form that leaves junk beyond len or in spare
+    // words differs from one that does not). Metamorphic: same operation, same operands, only the form differs.
+    let oks: Vec<(Form, &A)> = run.results.iter().filter_map(|(f, r)| r.as_ref().ok().map(|v| (*f, v))).collect();
+    if oks.len() > 1 {
+        let (f0, r0) = oks[0];
+        if let Ok(b0) = guarded(|| crate::battery::basic(r0)) {
+            for (f, r) in &oks[1..] {
+                let same = guarded(|| (crate::battery::basic(*r) == b0, *r == r0, r0 == *r, crate::battery::hash_stream(*r) == crate::battery::hash_stream(r0)));
+                ctx.observer_calls += 8;
+                match same {
+                    Ok((true, true, true, true)) => {}
+                    Ok(t) => {
+                        ctx.violation(
+                            "forms-results-distinguishable",
+                            &sig,
+                            &cs(),
+                            format!(
+                                "{} {} {}: the results of forms {} and {} have the same visible bits but are distinguishable (observers equal, ==, reversed ==, hash stream) = {:?}",
+                                a.describe(), op.name(), b.describe(), f0.name(), f.name(), t
+                            ),
+                        );
+                        break;
+                    }
+                    Err(_) => {}
+                }
+            }
+        }
+    }
     if let Some(d) = run.a_changed {
         ctx.violation("operand-changed:lhs", &sig, &cs(), format!("left operand of {} changed: {}", op.name(), d));
     }
@@ -471,12 +500,16 @@ fn judge_forms_shift<A: Subject + AllPairs>(ctx: &mut Ctx, case: &Case, wl: &str
     let (av, _) = build::<A>(&a);
     let before = snap(&av);
     let mut outs = vec![];
+    let mut kept: Vec<(Form, A)> = vec![];
     for f in ALL_FORMS {
         let r = guarded(|| A::shift(&av, left, f, k));
         outs.push((f, match &r {
             Ok(v) => guarded(|| (v.len(), crate::spec::read_bits(v))).ok(),
             Err(_) => None,
         }));
+        if let Ok(v) = r {
+            kept.push((f, v));
+        }
     }
     let s = sig_hash(&[a.ty as u64, 2021, k.ty() as u64, left as u64, a.bits.len() as u64, model::hash_bits(&a.bits), k.val() as u64, (k.val() >> 64) as u64]);
     ctx.eval(s, !a.bits.is_empty() && k.val() > 0);
@@ -502,6 +535,27 @@ fn judge_forms_shift<A: Subject + AllPairs>(ctx: &mut Ctx, case: &Case, wl: &str
                 ),
             );
             break;
+        }
+    }
+    if kept.len() > 1 {
+        let (f0, r0) = (&kept[0].0, &kept[0].1);
+        if let Ok(b0) = guarded(|| crate::battery::basic(r0)) {
+            for (f, r) in &kept[1..] {
+                let same = guarded(|| (crate::battery::basic(r) == b0, r == r0, r0 == r, crate::battery::hash_stream(r) == crate::battery::hash_stream(r0)));
+                ctx.observer_calls += 8;
+                if let Ok(t) = same {
+                    if t != (true, true, true, true) {
+                        ctx.violation(
+                            "shift-forms-results-distinguishable",
+                            &sig,
+                            &cs(),
+                            format!("{} {} {}: the results of forms {} and {} have the same visible bits but are distinguishable (observers equal, ==, reversed ==, hash stream) = {:?}",
+                                a.describe(), if left { "<<" } else { ">>" }, k.enc(), f0.name(), f.name(), t),
+                        );
+                        break;
+                    }
+                }
+            }
         }
     }
     if let (Ok(b), Ok(af)) = (&before, &snap(&av)) {
